@@ -166,6 +166,8 @@ def generate(prop, rng, tier):
                                      [1.0, 1.0, 0.03], [1.0, 0.02, 1.0],
                                      [0.2, 1.0, 0.05]])
         pool = [n for n in pool if n not in ("join", "join_mixed")]
+        if rec["family"] == "tet-sliver":
+            rec.pop("stretch")      # thin twice over: nothing but rounding
     if prop in ("C12", "C13") and rng.random() < 0.12:
         # the same geometry in other units; operations whose library code
         # (or whose check here) works with absolute coordinates stay out
@@ -963,7 +965,11 @@ def _check_refinement(st, ns, prop, probes, catcher, uniform_steps=None,
     d = G.DIM[s.kind]
     if ns.cls != s.cls:
         raise Bad("valid-class-changed", before=s.cls, after=ns.cls)
-    K.check_valid(ns, allow_unused=st.allow_unused)
+    # children of a sliver are slivers: "degenerate" is judged against the
+    # worst shape the parent mesh already had (repeated bisection within one
+    # call can cost a factor of 2 per level)
+    K.check_valid(ns, allow_unused=st.allow_unused,
+                  deg_ratio=min(1e-12, 1e-4 * float(K.shape_ratio(s).min())))
     if uniform_steps is not None:
         want = s.nt * (2 ** (d * uniform_steps))
         if ns.nt != want:
